@@ -114,6 +114,9 @@ Definition drop_locs (h : heap) (ls : list loc) : heap := drop_list (sumcnt h) h
 Definition drop_val (h : heap) (v : hval) : heap := drop_locs h (handles v).
 Definition drop_opt (h : heap) (o : option hval) : heap := drop_locs h (handles_opt o).
 
+(* the cost counter of C02: elements copied by make_mut *)
+Definition add_copied (h : heap) (n : nat) : heap := mkheap (cells h) (copied h + n).
+
 (* Rc::make_mut on the handle to l: the location to mutate through afterwards *)
 Definition make_mut (h : heap) (l : loc) : heap * loc :=
   match get_cell h l with
@@ -123,8 +126,8 @@ Definition make_mut (h : heap) (l : loc) : heap * loc :=
     else
       let h1 := clone_locs h (handles_items (citems c)) in
       let h2 := decr h1 l in
-      (mkheap (cells h2 ++ [mkcell 1 (ckind c) (citems c)]) (copied h2 + length (citems c)),
-       length (cells h2))
+      let '(h3, l') := alloc h2 (ckind c) (citems c) in
+      (add_copied h3 (length (citems c)), l')
   end.
 
 (* ------------------------------------------------------------------ literals *)
